@@ -160,6 +160,30 @@ def check_case(ctx, case):
         ctx.rmtree(d)
 
 
+def run_large(ctx, n):
+    """Slices wider / taller than 256 pixels, more slices than one chunk of
+    64, chunk sizes of 32 and 64."""
+    @st.composite
+    def strat(draw):
+        code = draw(st.sampled_from(CODES))
+        big = draw(st.integers(0, 2))
+        dims = [draw(st.integers(1, 4)) for _ in range(3)]
+        dims[big] = draw(st.sampled_from([257, 260, 300, 130, 65]))
+        return {"code": code, "n": dims,
+                "chunk": [draw(st.sampled_from([32, 64])) for _ in range(3)],
+                "layout": draw(st.sampled_from(["grey", "rgb", "dirs2"])),
+                "pix": "uint8", "out": draw(st.sampled_from(["uint8",
+                                                             "uint16"])),
+                "acc": draw(st.sampled_from(["flat", "deep_gz"])),
+                "cli": draw(st.booleans()),
+                "seed": draw(st.integers(0, 1000))}
+
+    def check(ctx, case):
+        check_case(ctx, case)
+        ctx.record(case, True, ["large", "code." + case["code"]])
+    ctx.run_hypothesis(strat(), check, n)
+
+
 def run(ctx, n):
     mine = CODES[ctx.shard::ctx.nshards]
     per = max(2, n // len(CODES))
@@ -179,4 +203,5 @@ def replay(ctx, case):
 
 
 SUBS = [Sub("orient", run, replay, quick=384, thorough=7200, shards=12,
-            sweep=True)]
+            sweep=True),
+        Sub("large", run_large, replay, quick=48, thorough=960, shards=8)]
